@@ -3,5 +3,6 @@ anything not recognised becomes an Unknown constructor for which the theorems ha
 
 
 def generate_all():
-    from . import routes_table
+    from . import routes_table, options_table
     routes_table.generate()
+    options_table.generate()
